@@ -3,7 +3,7 @@
 # and, loudly, anything that would count as an alarm on the unchanged tree.
 cd "$(dirname "$0")/.."
 bad=0
-for id in C01 C02 C03 C04 C05 C06 C07 C08 C09 C10 C11 C12 C13 C14 C15 C16 C17 C18 C19; do
+for id in C01 C02 C03 C04 C05 C06 C07 C08 C09 C10 C11 C12 C13 C14 C15 C16 C17 C18 C19 C20; do
   out=$(/venv/bin/python bin/check.py $id --tier quick 2>&1); rc=$?
   echo "$out" | grep "^$id:" | tail -1
   if [ $rc -ne 0 ] || echo "$out" | grep -q "^VIOLATION\|ANALYSIS-ERROR"; then
